@@ -294,10 +294,113 @@ def make_case(seed, cid, quick=True, family=None, dim=None, topo=None, widenings
     return L
 
 
-def make_cases(seed, n, quick=True, start=0):
+# ---------------------------------------------------------------------------------------------------------------
+# weakly relational shapes and boxes
+SHAPE_WIDENINGS = {"BDS": ["BHMZ05", "H79", "CC76"], "OCT": ["BHMZ05", "CC76"], "BOX": ["CC76"]}
+SHAPE_ROUTES = ["copy", "closed", "empt", "cons", "mcons", "poly", "addc", "consred"]
+
+
+def shape_dir(r, kind, n):
+    """A left-hand side in the class of the shape."""
+    v = [0] * n
+    if kind == "BOX" or n == 1 or r.random() < 0.5:
+        v[r.randrange(n)] = r.choice([1, -1])
+    else:
+        i, j = r.sample(range(n), 2)
+        if kind == "BDS":
+            v[i], v[j] = 1, -1
+        else:
+            v[i], v[j] = r.choice([1, -1]), r.choice([1, -1])
+    return v
+
+
+def shape_chain(r, kind, n, length):
+    c = [r.randint(-3, 3) for _ in range(n)]
+    cs, seen = [], set()
+    for _ in range(r.randint(n, 2 * n + 3)):
+        v = shape_dir(r, kind, n)
+        if tuple(v) in seen: continue
+        seen.add(tuple(v))
+        m = r.choice([1, 1, 1, 2, 3])               # common factor: rational bounds
+        val = sum(v[i] * c[i] for i in range(n)) * m
+        u = r.random()
+        k = "=" if u < 0.1 else (">" if (kind == "BOX" and u < 0.3) else ">=")
+        if k == "=" and tuple(-x for x in v) in seen: k = ">="
+        slack = 0 if k == "=" else (r.randint(1, 4) if k == ">" else r.randint(0, 4))
+        cs.append([k, slack - val, [m * x for x in v]])
+    ys = []
+    snap = lambda: [(k[0], k[1], list(k[2])) for k in cs]
+    ys.append(snap())
+    for _ in range(length):
+        if cs:
+            k = r.choice(cs)
+            u = r.random()
+            if k[0] == "=":
+                cs.remove(k)
+                cs.append([">=", k[1] + r.randint(0, 2), list(k[2])])
+                cs.append([">=", -k[1] + r.randint(0, 2), [-x for x in k[2]]])
+            elif k[0] == ">" and u < 0.4: k[0] = ">="
+            elif u < 0.08: cs.remove(k)
+            else: k[1] += r.choice([1, 1, 2, 3, 7])
+        ys.append(snap())
+    return ys
+
+
+def make_shape_case(seed, cid, quick=True, kind=None):
+    r = random.Random(seed)
+    kind = kind or r.choice(["BDS", "BDS", "OCT", "OCT", "BOX"])
+    n = r.choice([1, 2, 2, 3, 3])
+    ys = shape_chain(r, kind, n, r.randint(4, 7) if quick else r.randint(6, 11))[:12]
+    L = ["case %s" % cid, "# family=shape-%s dim=%d topo=%s length=%d seed=%d" % (kind, n, kind, len(ys), seed)]
+    nid = [0]
+    def fresh():
+        nid[0] += 1; return nid[0] - 1
+    def new_y(y):
+        i = fresh(); L.append("new %d %s %d %s" % (i, kind, n, fmt_cons(y))); return i
+    y0 = new_y(ys[0])
+    X = {w: y0 for w in SHAPE_WIDENINGS[kind]}
+    p_extra = 0.45 if quick else 0.7
+    for k in range(1, len(ys)):
+        yk = new_y(ys[k])
+        for w in SHAPE_WIDENINGS[kind]:
+            x = X[w]
+            a = fresh(); L.append("hull %d %d %d" % (a, x, yk))
+            ra, rb = [a], [x]
+            for _ in range(2):
+                i = fresh(); L.append("mk %d %s %d %d" % (i, r.choice(SHAPE_ROUTES), a, r.randrange(1 << 20))); ra.append(i)
+                i = fresh(); L.append("mk %d %s %d %d" % (i, r.choice(SHAPE_ROUTES), x, r.randrange(1 << 20))); rb.append(i)
+            pairs = [(ra[0], rb[0]), (ra[1], rb[1]), (ra[2], rb[r.choice([0, 2])])]
+            res = []
+            for (ia, ib) in pairs:
+                i = fresh(); L.append("widen %s %d %d %d -1" % (w, i, ia, ib)); res.append(i)
+            L.append("#! same %d %d" % (res[0], res[1])); L.append("#! same %d %d" % (res[0], res[2]))
+            if r.random() < p_extra:
+                for (t, pi) in [(1, 0), (r.choice([2, 3]), 1), (0, 2)]:
+                    i = fresh(); L.append("widen %s %d %d %d %d plain %d" % (w, i, pairs[pi][0], pairs[pi][1], t, res[pi]))
+            if r.random() < p_extra:
+                cs = []
+                for _ in range(r.randint(2, 4)):
+                    v = shape_dir(r, kind, n)
+                    cs.append((">=" if r.random() < 0.9 else "=", r.randint(-2, 12), v))
+                i = fresh(); L.append("lim %s limited %d %d %d -1 %s plain %d" % (w, i, pairs[0][0], pairs[0][1], fmt_cons(cs), res[0]))
+                j = fresh(); L.append("lim %s limited %d %d %d -1 %s plain %d" % (w, j, pairs[1][0], pairs[1][1], fmt_cons(cs), res[1]))
+                L.append("#! same %d %d" % (i, j))
+                if r.random() < 0.5:
+                    pi = r.choice([0, 1, 2])
+                    i = fresh(); L.append("lim %s limited %d %d %d %d %s plain %d" % (w, i, pairs[pi][0], pairs[pi][1], r.choice([0, 1, 2]), fmt_cons(cs), res[pi]))
+            X[w] = res[0]
+    L.append("end")
+    return L
+
+
+def make_cases(seed, n, quick=True, start=0, shapes=0.3):
     out = []
     for i in range(n):
-        out.append(make_case(seed * 100003 + i, "g%d" % (start + i), quick))
+        r = random.Random(seed * 100003 + i)
+        if r.random() < shapes:
+            out.append(make_shape_case(seed * 100003 + i, "s%d" % (start + i), quick))
+        else:
+            out.append(make_case(seed * 100003 + i, "g%d" % (start + i), quick))
     return out
 
 
